@@ -10,9 +10,16 @@ import re
 from common import DRIVER, REPO, VERIF, sh
 
 MODULES = {"C07": "NaijaVerif.Props.C07Lex", "C10": "NaijaVerif.Props.C10Lex"}
+# lexer share of the memory part of C07 (D-19): string-buffer capacities are linear in the source.
+# checks/c07.py lists it in its own MODULES; CLEX builds it through lex_obligations.
+MEM_MODULE = "NaijaVerif.Props.C07Mem"
 
 RULE = ("lex: texts from a grammar of lexer classes (every token kind, 2/3/4-byte characters, quotes, backslash, '#', "
-        "'.', digits, CR/LF/CRLF/TAB/FF glued to every token kind, with and without separators), truncations of the "
+        "'.', digits, CR/LF/CRLF/TAB/FF glued to every token kind, with and without separators), string literals built "
+        "to exercise the buffer of scan_string (escapes at the start / middle / end, runs of escaped quotes that force "
+        "growth past the reservation, invalid and multi-byte escapes, backslash + LF / CR / CRLF, unterminated at a line "
+        "end, at the end of input and on a trailing backslash, both quote characters, several literals per line; every "
+        "prefix of the hand-written ones), truncations of the "
         "shipped programs on character boundaries, re-layouts of valid token sequences (7 layouts each) and long "
         "repetitive inputs; non-trivial = the implementation produced a token besides the final eof or a diagnostic; "
         "distinct by request text")
@@ -30,6 +37,8 @@ STREAMS = [
 def lex_obligations(ck, props=("C07", "C10")):
     """Build and audit the lexer theorem modules; every theorem in them is an obligation."""
     mods = [MODULES[p] for p in props]
+    if "C07" in props and os.path.exists(os.path.join(VERIF, "lean", *MEM_MODULE.split(".")) + ".lean"):
+        mods.append(MEM_MODULE)
     return ck.lean_obligations(mods)
 
 
@@ -45,7 +54,11 @@ def text_of(req):
 
 def corpus_requests():
     reqs = []
-    for f in sorted(glob.glob(os.path.join(VERIF, "corpus", "lex", "*.txt"))):
+    files = sorted(glob.glob(os.path.join(VERIF, "corpus", "lex", "*.txt")))
+    # string-buffer seeds (`caps=`) live with the properties they serve
+    files += sorted(glob.glob(os.path.join(VERIF, "corpus", "C07", "lex*.txt")))
+    files += sorted(glob.glob(os.path.join(VERIF, "corpus", "C10", "lex*.txt")))
+    for f in files:
         for line in open(f):
             line = line.strip()
             if line and not line.startswith("#"):
@@ -57,11 +70,11 @@ def classify(ck, reqs, res):
     impl = res["impl_lines"]
     for r, a in zip(reqs, impl):
         ck.count("lex_cases")
-        m = re.match(r"toks=(\S+) diags=(\S+) labels=(\S+) end=(\S+)", a)
+        m = re.match(r"toks=(\S+) diags=(\S+) labels=(\S+)(?: caps=(\S+))? end=(\S+)", a)
         if not m:
             ck.count("lex_answer_" + a.split(" ")[0][:12])
             continue
-        toks, diags, _labels, end = m.groups()
+        toks, diags, _labels, caps, end = m.groups()
         ck.count("lex_end_" + end)
         if end != "ok":
             continue
@@ -73,6 +86,19 @@ def classify(ck, reqs, res):
             for d in set(x.split(":")[2] for x in diags.split(",")):
                 ck.count("lex_diag_" + d)
         t = text_of(r)
+        if caps not in (None, "-", "?"):
+            # buffers of owned string tokens (Model/LexMem.lean): how many, how large, how often grown
+            cs = [int(x) for x in caps.split(",")]
+            ck.count("lex_cases_with_string_buffers")
+            ck.count("lex_string_buffers", len(cs))
+            if len(cs) >= 2:
+                ck.count("lex_cases_with_2plus_string_buffers")
+            if any(c >= 8 and c & (c - 1) == 0 for c in cs):
+                ck.count("lex_cases_buffer_capacity_power_of_two")     # amortised growth took place
+            if t and 2 * sum(cs) > 3 * len(t):
+                ck.count("lex_cases_buffers_above_1.5x_text")
+            if t and sum(cs) > 2 * len(t):
+                ck.count("lex_cases_buffers_above_2x_text")
         if any(b >= 0x80 for b in t):
             ck.count("lex_cases_non_ascii")
         if b"\r" in t:
@@ -113,6 +139,7 @@ def fail_class(what):
                      ("not on a character boundary", "span-not-on-char-boundary"),
                      ("not valid UTF-8", "string-content-not-utf8"), ("beyond the text", "span-out-of-range"),
                      ("start > end", "span-reversed"), ("before the end of its predecessor", "tokens-overlap"),
+                     ("capacities sum to", "string-buffers-not-linear"), ("buffer capacity", "string-buffer-capacity"),
                      ("re-layout changes", "layout-changes-tokens")]:
         if key in what:
             return cls
@@ -172,6 +199,47 @@ def shrink_text(ck, req, cls, budget=400):
     return "lex " + (binascii.hexlify("".join(chars).encode()).decode() or "-")
 
 
+def shrink_disagreement(ck, req, budget=150):
+    """Delta-debug the text of a `lex` request character-wise, keeping `implementation answer != model answer`
+    (for instance a differing `caps=` field). Returns (request, impl line, model line)."""
+    def both(r):
+        impl, _ = run_impl(ck, [r])
+        model = run_model([r])
+        return (impl[0] if impl else "?"), (model[0] if model else "?")
+
+    a, b = both(req)
+    if not req.startswith("lex ") or a == b:
+        return req, a, b
+    try:
+        chars = list(text_of(req).decode("utf-8"))
+    except UnicodeDecodeError:
+        return req, a, b
+    tries = 0
+    n = 2
+    while len(chars) >= 2 and tries < budget:
+        chunk = max(1, len(chars) // n)
+        reduced = False
+        for i in range(0, len(chars), chunk):
+            cand = chars[:i] + chars[i + chunk:]
+            if not cand:
+                continue
+            tries += 1
+            r = "lex " + binascii.hexlify("".join(cand).encode()).decode()
+            x, y = both(r)
+            if x != y:
+                chars, a, b = cand, x, y
+                n = max(n - 1, 2)
+                reduced = True
+                break
+            if tries >= budget:
+                break
+        if not reduced:
+            if chunk == 1:
+                break
+            n = min(n * 2, len(chars))
+    return "lex " + binascii.hexlify("".join(chars).encode()).decode(), a, b
+
+
 def describe(req):
     t = text_of(req)
     s = t.decode("utf-8", "replace")
@@ -218,14 +286,27 @@ def lex_search(ck, pid_note=""):
                 "broken": ck.broken[:5], "note": pid_note,
             })
         return True
+    smallest = None
+    lexdis = [d for d in ck.disagreements if d.get("family") == "lex" and d["request"].startswith("lex ")]
+    if lexdis and os.path.exists(DRIVER):
+        d = min(lexdis, key=lambda d: len(d["request"]))
+        req, a, b = shrink_disagreement(ck, d["request"], budget=150 if len(d["request"]) < 4000 else 30)
+        field = next((k for k in ("toks", "diags", "labels", "caps", "end")
+                      if re.search(k + r"=(\S+)", a) and re.search(k + r"=(\S+)", b)
+                      and re.search(k + r"=(\S+)", a).group(1) != re.search(k + r"=(\S+)", b).group(1)), None)
+        smallest = {"text": describe(req), "text_bytes": len(text_of(req)), "request": req,
+                    "implementation": a, "model": b, "first_differing_field": field}
     ck.report_violation({
         "kind": "tie-broken", "family": "lex",
         "what": "a lexer proof obligation, an extracted table or the model/implementation correspondence no longer "
-                "checks; no text violating the property itself was found",
+                "checks; no text violating the property itself was found"
+                + (f" (model and implementation differ in `{smallest['first_differing_field']}=` on the text "
+                   f"{smallest['text']!r})" if smallest else ""),
+        "smallest_disagreement": smallest,
         "broken": ck.broken[:10],
         "disagreements": [{k: (v if k != "history" else None) for k, v in d.items()} for d in ck.disagreements[:5]],
-        "requests": [d["request"] for d in ck.disagreements[:5]],
-        "texts": [describe(d["request"]) for d in ck.disagreements[:5]],
+        "requests": ([smallest["request"]] if smallest else []) + [d["request"] for d in ck.disagreements[:5]],
+        "texts": ([smallest["text"]] if smallest else []) + [describe(d["request"]) for d in ck.disagreements[:5]],
         "note": pid_note,
     }, no_input_found=True)
     return False
